@@ -137,3 +137,27 @@ Example C03_pmm_init_is_setup_then_tail_nonvacuous :
 Proof.
   vm_compute. split; [reflexivity|]. split; [eexists; eexists; reflexivity|]. split; [reflexivity|]. split; reflexivity.
 Qed.
+
+(** [audit A] C03_pmm_init_is_setup_then_tail APPLIED with all four hypotheses discharged together, the boot state [b] being
+    the one [map_pages] really ends in (the example above states the hypotheses side by side without linking [b]) *)
+Example C03_pmm_init_is_setup_then_tail_real_input :
+  let m := C01_examples.pm_map in
+  fst (pmm_init m C01_examples.pm_kstart C01_examples.pm_kend two64 0) =
+  match init_tail m (kernel_start_frame C01_examples.pm_kstart) (kernel_end_frame C01_examples.pm_kend)
+          (mkBA (snd (fst (pass1 m 0))) 0 (pass2 m)) (mkB 1 1) with
+  | Ok (a, b') => InitOk a b'
+  | Panic => InitPanic
+  | Hang => InitHang
+  end.
+Proof.
+  intros m.
+  assert (Hm : exists calls, map_pages m (kernel_start_frame C01_examples.pm_kstart) (kernel_end_frame C01_examples.pm_kend)
+             (N.shiftr (required_bytes (fst (fst (pass1 m 0))) (snd (pass1 m 0))) PageShift) 0 = MGo (mkB 1 1) calls)
+    by (eexists; vm_compute; reflexivity).
+  destruct Hm as [calls Hm].
+  apply (C03_pmm_init_is_setup_then_tail m C01_examples.pm_kstart C01_examples.pm_kend two64 0 (mkB 1 1) calls).
+  - vm_compute. reflexivity.
+  - exact Hm.
+  - vm_compute. reflexivity.
+  - vm_compute. reflexivity.
+Qed.
